@@ -271,6 +271,36 @@ DamageFails(base, ln) ==
 (***************************************************************************)
 (* C08: planted garbage.                                                   *)
 (***************************************************************************)
+\* the two other clean-ups, each on its own copy of the planted directory: quarantine_orphans (the orphans, and only
+\* they, arrive in the quarantine directory under the name of their hash, bytes intact) and delete_orphan for every
+\* named content (true exactly for the scanned orphans, which are gone afterwards; false the second time)
+OtherCleanupFails(ln, o, dj, live) ==
+    LET s == Scan(o.idx, SeqToSet(dj.cas), SeqToSet(dj.casbad), FALSE) IN
+    UNION {
+      IF ~ln.quar.on THEN {} ELSE
+      LET q == ln.quar  qo == q.obs IN
+      UNION {
+        Fail(q.ok /\ q.errors = 0, "C08:quarantine-failed"),
+        Fail(SeqToSet(q.moved) \ {"?"} = s.orphaned /\ Len(q.moved) = Cardinality(s.orphaned) + dj.casunk /\ q.n = Len(q.moved),
+             "C08:quarantine-moved-set"),
+        Fail(q.intact /\ q.strange = 0, "C08:quarantined-bytes"),
+        Fail(qo.idx = o.idx, "C08:quarantine-changed-index"),
+        Fail(\A c \in live : (c \in SeqToSet(dj.cas) => c \in SeqToSet(qo.disk.cas))
+                            /\ (c \in SeqToSet(dj.casbad) => c \in SeqToSet(qo.disk.casbad)), "C08:quarantine-removed-live-blob"),
+        Fail((SeqToSet(qo.disk.cas) \cup SeqToSet(qo.disk.casbad)) \subseteq live /\ qo.disk.casunk = 0, "C08:orphan-left-after-quarantine")
+      },
+      IF ~ln.one.on THEN {} ELSE
+      LET w == ln.one  wo == w.obs IN
+      UNION {
+        Fail(\A i \in 1..Len(ContentSeq) : w.res[i] = (IF ContentSeq[i] \in s.orphaned THEN "true" ELSE "false"), "C08:delete_orphan-result"),
+        Fail(\A i \in 1..Len(ContentSeq) : w.again[i], "C08:delete_orphan-second-call"),
+        Fail(wo.idx = o.idx, "C08:delete_orphan-changed-index"),
+        Fail(\A c \in live : (c \in SeqToSet(dj.cas) => c \in SeqToSet(wo.disk.cas))
+                            /\ (c \in SeqToSet(dj.casbad) => c \in SeqToSet(wo.disk.casbad)), "C08:delete_orphan-removed-live-blob"),
+        Fail((SeqToSet(wo.disk.cas) \cup SeqToSet(wo.disk.casbad)) \subseteq live, "C08:orphan-left-after-delete_orphan")
+      }
+    }
+
 PlantFails(mb, ln) ==
     LET o  == ln.rec.obs
         dj == ln.rec.disk
@@ -292,7 +322,8 @@ PlantFails(mb, ln) ==
                               /\ (c \in SeqToSet(dj.casbad) => c \in SeqToSet(co.disk.casbad)), "C08:cleanup-removed-live-blob"),
           Fail((SeqToSet(co.disk.cas) \cup SeqToSet(co.disk.casbad)) \subseteq live /\ co.disk.casunk = 0, "C08:orphan-left"),
           Fail(co.disk.junk = 0, "C08:invalid-file-left"),
-          Fail(co.disk.stg = 0, "C08:staging-left")
+          Fail(co.disk.stg = 0, "C08:staging-left"),
+          OtherCleanupFails(ln, o, dj, live)
         }
 
 (***************************************************************************)
